@@ -11,6 +11,29 @@ fn main() {
     if a.len() >= 3 && a[1] == "replay" {
         std::process::exit(replay(&a[2..]));
     }
+    if a.len() >= 3 && a[1] == "dump-corpus" {
+        // seed corpus for the libFuzzer engine: G1 templates with selector prefixes
+        std::fs::create_dir_all(&a[2]).unwrap();
+        let mut n = 0;
+        for kind in hverif::gen::ALL_KINDS {
+            for (i, t) in hverif::gen::templates(kind).iter().enumerate() {
+                if t.len() > 400 {
+                    continue;
+                }
+                for (j, e) in kind.entries().iter().enumerate() {
+                    if (i + j) % 2 == 1 && kind.entries().len() > 1 {
+                        continue;
+                    }
+                    let mut b = vec![e.idx() as u8 + 9 * ((i % 3) as u8), (i * 37 % 128) as u8, 6 + ((i % 4) as u8)];
+                    b.extend_from_slice(t);
+                    std::fs::write(format!("{}/seed-{:04}", a[2], n), &b).unwrap();
+                    n += 1;
+                }
+            }
+        }
+        println!("{} corpus files", n);
+        return;
+    }
     if a.len() >= 3 && a[1] == "canary" {
         match a[2].as_str() {
             "overread" => hverif::canary::overread(),
@@ -92,6 +115,22 @@ fn replay(a: &[String]) -> i32 {
             } else {
                 println!("not reproduced (property held on this case)");
                 0
+            }
+        }
+        "fuzz" => {
+            // fuzz <prop> <artifact file>
+            std::env::set_var("VERIF_FUZZ_PROP", &a[1]);
+            let data = std::fs::read(&a[2]).expect("artifact");
+            match hverif::fuzzglue::fuzz_one(&data) {
+                Some(m) => {
+                    println!("{}", m);
+                    println!("REPRODUCED");
+                    1
+                }
+                None => {
+                    println!("not reproduced");
+                    0
+                }
             }
         }
         other => hverif::run::replay_other(other, &a[1..]),
